@@ -32,7 +32,24 @@ def r18_1_cycles(ctx, rid='R18.1'):
         for c in checks:
             node_ok = c.args and any(norm(c.args[0]) == norm(p.args[0]) for p in procs)
             fresh = all(norm(a) in ('set()', 'dict()', '[]', 'list()') for a in c.args[1:]) and not c.keywords
-            r.check(bool(node_ok) and fresh and len(c.args) >= 2, '%s: __check_no_cycles(node, set(), set()) - fresh sets per load' % entry,
+            n_given = len(c.args)
+            if fresh and len(c.args) < 3:
+                # the sets a call leaves out are made by the check itself: a parameter defaulting to None that is replaced by a
+                # fresh set() first thing
+                callee = fn(P, 'yatiml.loader:Loader.__check_no_cycles')
+                pn = callee.fi.params[1:]
+                defaults = callee.fi.node.args.defaults
+                dmap = dict(zip(callee.fi.node.args.args[len(callee.fi.node.args.args) - len(defaults):], defaults))
+                dmap = {a_.arg: d_ for a_, d_ in dmap.items()}
+                for pname in pn[len(c.args):]:
+                    d_ = dmap.get(pname)
+                    made = [st_ for st_ in callee.walk() if isinstance(st_, ast.Assign) and norm(st_.targets[0]) == pname
+                            and norm(st_.value) == 'set()' and callee.has_guard(st_, '%s is None' % pname, True, expand=False)]
+                    uses_before = False
+                    if not (isinstance(d_, ast.Constant) and d_.value is None and len(made) == 1):
+                        fresh = False
+                n_given = len(pn) if fresh else n_given
+            r.check(bool(node_ok) and fresh and n_given >= 2, '%s: __check_no_cycles(node, set(), set()) - fresh sets per load' % entry,
                     f.key('cycle-check-args'), f.loc(c), 'the cycle check is not given the composed node and fresh per-call sets (%s): '
                     'state from earlier loads would be consulted (ids of freed nodes are reused)' % [norm(a) for a in c.args])
     g = fn(P, 'yatiml.loader:Loader.__check_no_cycles')
